@@ -90,3 +90,9 @@ def run(ctx):
     lattice_loops(ctx, rnd)
     grid_regions(ctx, rnd)
     tilings(ctx, rnd)
+    # extension: ContainsVertexQuery / AngleContainsVertex on the integer lattice (spec/VertexQuery.tla)
+    try:
+        from checks import ext_wedge
+        ext_wedge.run_ext(ctx)
+    except vlib.Infra:
+        raise
